@@ -2,7 +2,7 @@
 import vlib
 from props import subhist_common as S
 
-TRANSLATORS = ["accept_order"]
+TRANSLATORS = ["accept_order", "error_consts"]     # error_consts: Model/SubBookWire.v (what the engine prints for the too-many-subscriptions refusal)
 MODELS = ["subhist"]
 BINS = {"release": ["subhist"]}
 RULE = ("cases = one script line each over {subscribe, accept, reject, handler return, abandoned subscribe call (pending sink "
